@@ -27,6 +27,47 @@ const BASES: &[&str] = &[
     "<graphml><graph edgedefault=\"directed\"><node id=\"\u{e9}\u{e9}\u{65e5}\u{672c}\u{1F600}\u{e9}\u{e9}\u{e9}\u{e9}\u{e9}\u{e9}\"/><node id=\"\u{3b1}\u{3b2}\u{3b3}\"/><edge source=\"\u{3b1}\u{3b2}\u{3b3}\" target=\"\u{e9}\u{e9}\u{65e5}\u{672c}\u{1F600}\u{e9}\u{e9}\u{e9}\u{e9}\u{e9}\u{e9}\"><data key=\"weight\">\u{e9}1</data></edge></graph></graphml>",
 ];
 
+/// a long weight text mixing ASCII and multi-byte characters (a number with a unit, a sentence): any byte offset
+/// a reader computes on it may fall inside a character
+fn long_weight_text(rng: &mut Rng) -> String {
+    let mut s = String::new();
+    if rng.chance(1, 2) {
+        s.push_str(*rng.pick(&["0.000", "12", "1e", "-", "3.14159265358979", "0.1"]));
+    }
+    let target = rng.range(20, 140);
+    while s.len() < target {
+        match rng.below(6) {
+            0 => s.push('\u{e9}'),
+            1 => s.push('\u{b5}'),
+            2 => s.push('\u{65e5}'),
+            3 => s.push('\u{1F600}'),
+            4 => s.push(' '),
+            _ => s.push((b'0' + rng.below(10) as u8) as char),
+        }
+    }
+    s
+}
+
+/// documents on which the reader fails after it has taken some state from them (a weight key, a graph kind,
+/// nodes, an open edge): read before the judged document on the same thread in a quarter of the sampled cases
+fn failing_prelude(rng: &mut Rng) -> String {
+    match rng.below(6) {
+        0 => {
+            let b = BASES[rng.below(BASES.len())];
+            let mut cut = rng.range(b.len() / 2, b.len() - 1);
+            while !b.is_char_boundary(cut) {
+                cut -= 1;
+            }
+            b[..cut].to_string()
+        }
+        1 => "<graphml><key id=\"k9\" for=\"edge\" attr.name=\"weight\"/><graph edgedefault=\"undirected\"><node id=\"p\"/><node id=\"q\"/><edge source=\"p\" target=\"q\"><data key=\"k9\">4</data></wrong></graph></graphml>".to_string(),
+        2 => "<graphml><key id=\"\" for=\"edge\" attr.name=\"weight\"/><graph edgedefault=\"directed\"><node id=\"p\"/><edge source=\"p\" target=\"p\"><data key=\"\">x&unknown;</data></edge>".to_string(),
+        3 => "<graphml><graph edgedefault=\"directed\"><node id=\"a\"/><node id=\"b\"/><edge source=\"a\" target=\"b\"><data key=\"weight\">not a number</data></edge></graph></graphml>".to_string(),
+        4 => "<graphml><graph edgedefault=\"undirected\"><node id=\"a\"><edge source=\"a\" target=\"a\"></node></graph>".to_string(),
+        _ => "<graphml><key id=\"w2\" attr.name=\"weight\" for=\"edge\"/><graph edgedefault=\"directed\"><node id=\"n\"/><edge source=\"n\"".to_string(),
+    }
+}
+
 #[derive(Clone, Copy, Debug, PartialEq)]
 enum Fault {
     Truncate,
@@ -186,7 +227,14 @@ fn grammar_doc(rng: &mut Rng) -> String {
                 _ => {
                     e.push('>');
                     let key = if rng.chance(5, 6) { wkey.as_str() } else { "weight" };
-                    let txt = if rng.chance(2, 3) { *rng.pick(&WEIGHT_TEXTS[..6]) } else { *rng.pick(WEIGHT_TEXTS) };
+                    let long = long_weight_text(rng);
+                    let txt: &str = if rng.chance(1, 12) {
+                        &long
+                    } else if rng.chance(2, 3) {
+                        *rng.pick(&WEIGHT_TEXTS[..6])
+                    } else {
+                        *rng.pick(WEIGHT_TEXTS)
+                    };
                     match rng.below(8) {
                         0 => e.push_str(&format!("<{}data key={}{}{}/>", prefix, q, key, q)),
                         1 => e.push_str(&format!("<{}data key={}{}{}><![CDATA[{}]]></{}data>", prefix, q, key, q, txt, prefix)),
@@ -301,7 +349,11 @@ fn structural_fault(rng: &mut Rng, doc: &str) -> String {
             match doc.find("</data>") {
                 Some(e) => {
                     let st = doc[..e].rfind('>').map(|x| x + 1).unwrap_or(e);
-                    format!("{}{}{}", &doc[..st], rng.pick(WEIGHT_TEXTS), &doc[e..])
+                    if rng.chance(1, 5) {
+                        format!("{}{}{}", &doc[..st], long_weight_text(rng), &doc[e..])
+                    } else {
+                        format!("{}{}{}", &doc[..st], rng.pick(WEIGHT_TEXTS), &doc[e..])
+                    }
                 }
                 None => doc.to_string(),
             }
@@ -570,6 +622,10 @@ impl Prop for C19Prop {
                     faults.push("Structural@".into());
                 }
             }
+            if rng.chance(1, 4) {
+                case.params.put("prelude_doc", J::s(&failing_prelude(&mut rng)));
+                faults.push("FailedReadBefore@same thread".into());
+            }
             (doc, faults)
         };
         case.params.put("doc", J::s(&doc));
@@ -593,6 +649,18 @@ impl Prop for C19Prop {
         }
         cx.ev(crate::core::rng::hash_str(&doc));
         let budget = 2_000_000 + 200 * doc.len() as u64;
+        if let Some(pre) = case.p_str("prelude_doc") {
+            // fault, then recovery: a read that fails, on this thread, before the judged one
+            let pre = pre.to_string();
+            match rt::call("read_graphml_string(prelude)", 2_000_000 + 200 * pre.len() as u64, || graphml::read_graphml_string(&pre, specs.to_real()).is_ok()) {
+                Err(p) => {
+                    let site = p.0.rsplit(" @ ").next().unwrap_or("").to_string();
+                    cx.fail("C19.panic", &format!("read_graphml_string panicked at {}", rt::strip_repo(&site)), format!("read_graphml_string panicked: {}; document: {:?}", p.0, pre));
+                    return;
+                }
+                Ok(ok) => cx.count(if ok { "prelude.read_ok" } else { "prelude.read_failed" }),
+            }
+        }
         let r = rt::call("read_graphml_string", budget, || graphml::read_graphml_string(&doc, specs.to_real()));
         let g = match r {
             Err(p) => {
@@ -726,7 +794,7 @@ impl Prop for C19Prop {
         out
     }
     fn rule(&self) -> String {
-        format!("every case is one explicit document passed to read_graphml_string under one of 3 specs. Case indexes 0..{} enumerate EXHAUSTIVELY every single-point corruption (truncation at every byte, deletion / duplication of every byte, every single-bit flip, every byte replaced by each of <>&\"'=/ and space) of {} fixed base documents; the remaining cases sample documents written by the real writer, the fixed bases and grammar-generated near-GraphML (keys with/without for/id/attr.name, data in node/edge/graph, empty vs start-end elements, comments, CDATA, PIs, DOCTYPE, BOM, prefixes, single quotes, nested/second graphs, odd weight texts) with 0-4 faults (byte-level as above; structural: delete/duplicate/swap a tag, duplicate/delete an attribute, inject entities, replace a weight text, splice two documents), plus resource bombs (1e5-deep nesting, 10 MB attribute). Oracle: the call returns (no unwind, no worker death, within the step budget 2e6 + 200 per byte); if Ok(g): an independent quick-xml walk over the same bytes gives declared directedness, node ids and (source,target) list, which fed through the C01 model with the supplied specs must give exactly g's nodes and edges (weights when every weight <data> is a direct child of an <edge>). distinct_nontrivial = distinct documents for which the reader returned a graph that was compared", exhaustive_block(), BASES.len())
+        format!("every case is one explicit document passed to read_graphml_string under one of 3 specs. Case indexes 0..{} enumerate EXHAUSTIVELY every single-point corruption (truncation at every byte, deletion / duplication of every byte, every single-bit flip, every byte replaced by each of <>&\"'=/ and space) of {} fixed base documents; the remaining cases sample documents written by the real writer, the fixed bases and grammar-generated near-GraphML (keys with/without for/id/attr.name, data in node/edge/graph, empty vs start-end elements, comments, CDATA, PIs, DOCTYPE, BOM, prefixes, single quotes, nested/second graphs, odd weight texts) with 0-4 faults (byte-level as above; structural: delete/duplicate/swap a tag, duplicate/delete an attribute, inject entities, replace a weight text - also by 20-140 bytes of mixed ASCII / multi-byte text -, splice two documents; in a quarter of the sampled cases a document on which the reader fails after taking state from it - a weight key, a graph kind, an open edge - is read on the same thread first), plus resource bombs (1e5-deep nesting, 10 MB attribute). Oracle: the call returns (no unwind, no worker death, within the step budget 2e6 + 200 per byte); if Ok(g): an independent quick-xml walk over the same bytes gives declared directedness, node ids and (source,target) list, which fed through the C01 model with the supplied specs must give exactly g's nodes and edges (weights when every weight <data> is a direct child of an <edge>). distinct_nontrivial = distinct documents for which the reader returned a graph that was compared", exhaustive_block(), BASES.len())
     }
     fn assumptions(&self) -> Vec<String> {
         vec![
